@@ -16,6 +16,9 @@ pub enum SchedKind {
     Sticky,
     /// shuttle's PCT scheduler (priority-based, depth 3)
     Pct,
+    /// uniform choice, plus stalled workers: now and then the running task is descheduled for
+    /// 20..400 scheduling points (a slow or preempted worker) while the others carry on
+    Stall,
 }
 
 #[derive(Clone, Copy, Debug, PartialEq, Serialize, Deserialize)]
@@ -28,6 +31,10 @@ pub struct SchedSpec {
 struct SeededScheduler {
     g: Gen,
     sticky: bool,
+    stall: bool,
+    /// task id -> scheduling points it still sits out
+    stalled: Vec<(usize, u32)>,
+    stalls: Arc<Mutex<u64>>,
     done: bool,
     record: Arc<Mutex<Vec<u32>>>,
 }
@@ -41,6 +48,25 @@ impl Scheduler for SeededScheduler {
         Some(Schedule::new(0))
     }
     fn next_task(&mut self, runnable: &[&Task], current: Option<TaskId>, _is_yielding: bool) -> Option<TaskId> {
+        if self.stall {
+            for e in self.stalled.iter_mut() {
+                e.1 = e.1.saturating_sub(1);
+            }
+            self.stalled.retain(|e| e.1 > 0);
+            if let Some(c) = current {
+                let c: usize = c.into();
+                if runnable.len() > 1 && self.g.chance(0.03) && !self.stalled.iter().any(|e| e.0 == c) {
+                    let n = 20 + self.g.below(381) as u32;
+                    self.stalled.push((c, n));
+                    *self.stalls.lock().unwrap() += 1;
+                }
+            }
+            let awake: Vec<TaskId> = runnable.iter().map(|t| t.id()).filter(|id| { let i: usize = (*id).into(); !self.stalled.iter().any(|e| e.0 == i) }).collect();
+            let pick = if awake.is_empty() { runnable[self.g.below(runnable.len())].id() } else { awake[self.g.below(awake.len())] };
+            let id: usize = pick.into();
+            self.record.lock().unwrap().push(id as u32);
+            return Some(pick);
+        }
         let pick = if self.sticky {
             match current {
                 Some(c) if runnable.iter().any(|t| t.id() == c) && self.g.chance(0.85) => c,
@@ -86,6 +112,8 @@ pub struct ParRun<R> {
     pub schedule_hash: u64,
     pub scheduler_steps: u64,
     pub context_switches: u64,
+    /// stalled-worker faults injected by the scheduler
+    pub stalls: u64,
 }
 
 /// Runs `f` as the main task of one shuttle execution with `spec.workers` simulated pool workers.
@@ -95,6 +123,7 @@ where
     F: Fn() -> R + Send + Sync + 'static,
 {
     let record = Arc::new(Mutex::new(Vec::<u32>::new()));
+    let stalls = Arc::new(Mutex::new(0u64));
     let slot: Arc<Mutex<Option<R>>> = Arc::new(Mutex::new(None));
     let slot2 = slot.clone();
     let mut config = shuttle::Config::new();
@@ -107,8 +136,8 @@ where
         *slot2.lock().unwrap() = Some(r);
     };
     let outcome = guarded(|| match spec.kind {
-        SchedKind::Random | SchedKind::Sticky => {
-            let s = SeededScheduler { g: Gen::new(spec.seed ^ 0x5EED_5C4E_D01E), sticky: spec.kind == SchedKind::Sticky, done: false, record: record.clone() };
+        SchedKind::Random | SchedKind::Sticky | SchedKind::Stall => {
+            let s = SeededScheduler { g: Gen::new(spec.seed ^ 0x5EED_5C4E_D01E), sticky: spec.kind == SchedKind::Sticky, stall: spec.kind == SchedKind::Stall, stalled: Vec::new(), stalls: stalls.clone(), done: false, record: record.clone() };
             shuttle::Runner::new(s, config).run(body);
         }
         SchedKind::Pct => {
@@ -132,14 +161,15 @@ where
         Ok(()) => slot.lock().unwrap().take().ok_or_else(|| "shuttle execution produced no result".to_string()),
         Err(p) => Err(p),
     };
-    ParRun { result, schedule_hash: h.0, scheduler_steps: rec.len() as u64, context_switches: switches }
+    let stalls = *stalls.lock().unwrap();
+    ParRun { result, schedule_hash: h.0, scheduler_steps: rec.len() as u64, context_switches: switches, stalls }
 }
 
 pub fn gen_sched(g: &mut Gen) -> SchedSpec {
     SchedSpec {
         workers: *g.pick(&[1, 2, 2, 3, 4, 8]),
         seed: g.u64(),
-        kind: *g.pick(&[SchedKind::Random, SchedKind::Random, SchedKind::Sticky, SchedKind::Pct]),
+        kind: *g.pick(&[SchedKind::Random, SchedKind::Stall, SchedKind::Sticky, SchedKind::Pct]),
     }
 }
 
